@@ -61,6 +61,27 @@ def programs(rng, tier):
             P.add(["pick", bdd_sx(a), vs])
         else:
             P.add(["pick_random", bdd_sx(a), vs, "v" + "".join(rng.choice("01") for _ in range(rng.randrange(0, len(xs) + 2)))])
+    # large variable counts with gaps (few nodes)
+    for _ in range(150 if tier == "quick" else 4000):
+        nv, vs_, a = gap_operand(rng)
+        pool = vs_ + [rng.randrange(nv) for _ in range(2)]
+        xs = sorted(set(rng.sample(pool, rng.randrange(0, min(3, len(pool)) + 1))))
+        lits = [(x, rng.random() < 0.5) for x in xs]
+        L = ["L"] + [["P", str(x), "T" if c else "F"] for x, c in lits]
+        V_ = ["L"] + [str(x) for x in xs]
+        k = rng.random()
+        if k < 0.3:
+            P.add(["restrict", bdd_sx(a), L])
+        elif k < 0.5:
+            P.add(["select", bdd_sx(a), L])
+        elif k < 0.65:
+            P.add(["var_restrict", bdd_sx(a), str(rng.choice(pool)), rng.choice("TF")])
+        elif k < 0.8:
+            P.add(["pick", bdd_sx(a), V_])
+        elif k < 0.9:
+            P.add(["var_pick", bdd_sx(a), str(rng.choice(pool))])
+        else:
+            P.add(["pick_random", bdd_sx(a), V_, "v" + "".join(rng.choice("01") for _ in range(len(xs)))])
     return P.progs
 
 
